@@ -55,7 +55,9 @@ LastRefererWithValue(m) == LastReferer([m EXCEPT !.hs = SelectSeq(m.hs, LAMBDA h
 H2Meaning(list, isreq, D) ==
   LET m == [kind |-> IF isreq THEN "req" ELSE "resp", hs |-> Regular(list), ver |-> "2"]
       kept == Kept(m)
-      sw == NoEmpty(IF isreq THEN First(kept, "user-agent") ELSE First(m.hs, "server"))
+      \* a field that is repeated: an occurrence without a value says nothing, also about the other occurrences
+      uas == SelectSeq(kept, LAMBDA h : IsName(h, "user-agent") /\ ValueOf(h) # "")
+      sw == IF isreq THEN (IF Len(uas) = 0 THEN <<>> ELSE <<ValueOf(uas[Len(uas)])>>) ELSE NoEmpty(First(m.hs, "server"))
       ho == Horder(m, D)
       ha == Habsent(m)
   IN [kind |-> m.kind,
